@@ -1452,6 +1452,7 @@ class ConfigList(UserList):
         if isinstance(value, str):
             if self.factory:
                 obj = config_line_factory(
+                    all_lines=self.as_text,
                     line=value,
                     syntax=self.syntax,
                 )
